@@ -80,6 +80,13 @@ CHECKS = [
            "inferred); random series and transform relations are validated by ScoresTrace.tla.",
       note="integer-valued series; irrational quantities compared through squares and signs; LOR through exp()",
       technique=TLA),
+ dict(property_id="C13", category="model_checking", design_ref="3.17",
+      text="GridStore.tla: a heap of grids and a file system with one action per API call (mutate, save, foreign raster of either byte order, load by "
+           "header/stream/zip, dict round trip, clone, clip); TLC checks the round-trip/independence/clip action properties over all interleavings to the "
+           "depth bound and one history per reachable state is replayed on real Grid objects for all 11 dtypes with bit-pattern tokens, comparing every "
+           "live grid after every step; catchment dictionary round trips on delineated catchments.",
+      note="values are opaque tokens in the spec (equality of bit patterns observed); little-endian host",
+      technique=TLA),
 ]
 
 _PENDING = "check not built yet in this round; see DESIGN.md section 3 for the planned specification"
